@@ -345,7 +345,7 @@ func (e *Engine) trustedBase() []string {
 	out = append(out,
 		"govc itself: Go-subset semantics, VC generation, cone-of-influence filter (drops hypotheses only)",
 		"SMT solvers: an unsat answer from any one of z3 5.1.0 / cvc5 1.0 / z3 4.8.12 is believed",
-		"recursive spec functions are well-founded (their definitions are used one unfold() instance at a time)")
+		"recursive spec functions are well-founded (their definitions are used one unfold() instance at a time); those that read the heap (nsName, envName over the parent chain of groups) read only fields that are fixed once the parser is built (parent, Namespace, EnvNamespace, NamespaceDelimiter)")
 	return out
 }
 
